@@ -127,7 +127,7 @@ Print Assumptions single_table_sound.
 
 (* ---------- a concrete world for witnesses and non-vacuity ---------- *)
 Definition w_hdr (alg kid : string) : list N -> option hview :=
-  fun _ => Some {| h_alg := JS alg; h_kid := JS kid; h_b64 := JAbsent; h_typ := JAbsent; h_cty := JAbsent |}.
+  fun _ => Some {| h_alg := JS alg; h_kid := JS kid; h_b64 := JAbsent; h_typ := JAbsent; h_cty := JAbsent; h_canon := [123; 125] |}.
 Definition w_key (f : fam) (r : repr) : pkey := {| pk_fam := f; pk_repr := r; pk_id := 1 |}.
 Definition w_rs (k : pkey) : string -> string -> option pkey := fun _ _ => Some k.
 Definition w_sm (p : sproc) (m : string) : list N -> sigv := fun bs => match bs with [] => SEmpty | _ => SBy 1 p (chars m) end.
@@ -174,6 +174,42 @@ Example resolver_nonvacuous :
                (fun bs => match bs with [] => SEmpty | _ => SBy 2 (PEc H256) (chars "e30.QQ") end)
                Fixed VBasic None (chars "e30.QQ.QQ") = Accept h [65]).
 Proof. vm_compute. repeat split; try discriminate. eexists; reflexivity. Qed.
+
+
+(* jose.DefaultSigningInputVerifier (a verifier that, BY DESIGN, rebuilds the signing input from the re-marshalled
+   header; used by pkg/didcomm middleware for from_prior).  What its acceptance implies: a signature by the
+   configured key, with the key's own procedure, over  encoding of the RE-MARSHALLED header || '.' || payload part. *)
+Theorem default_verifier_accept_sound : forall ph rs sm k det tok h payload,
+  parse_jws ph rs sm Fixed (VDefault k) det tok = Accept h payload ->
+  exists hseg pseg sseg hb p sg,
+    split_dot tok = [hseg; pseg; sseg] /\ b64dec hseg = Some hb /\ ph hb = Some h /\
+    default_proc (pk_fam k) = Some p /\ b64dec sseg = Some sg /\
+    sm sg = SBy (pk_id k) p (signed_bytes h (b64enc (h_canon h)) payload) /\
+    payload_received det pseg payload.
+Proof. exact default_accept_sound. Qed.
+Print Assumptions default_verifier_accept_sound.
+
+(* the FULL exact-header statement is refuted for this verifier (known finding, by design): two tokens that differ
+   in their header segment ("{}" and "{ }") and carry the same signature are both accepted *)
+Theorem default_verifier_header_exact_refuted :
+  let ph := w_hdr "EdDSA" "did:x#k" in let rs := w_rs (w_key FEd25519 RRaw) in let sm := w_sm PEd "e30.QQ" in
+  let k := w_key FEd25519 RRaw in
+  (exists h, parse_jws ph rs sm Fixed (VDefault k) None (chars "e30.QQ.QQ") = Accept h [65]) /\
+  (exists h, parse_jws ph rs sm Fixed (VDefault k) None (chars "eyB9.QQ.QQ") = Accept h [65]) /\
+  nth 0 (split_dot (chars "e30.QQ.QQ")) [] <> nth 0 (split_dot (chars "eyB9.QQ.QQ")) [] /\
+  parse_jws ph rs sm Fixed VBasic None (chars "eyB9.QQ.QQ") = Reject StVerif.
+Proof. vm_compute. repeat split; try (eexists; reflexivity). discriminate. Qed.
+Print Assumptions default_verifier_header_exact_refuted.
+
+(* PARTIAL: when the received header segment IS the encoding of the re-marshalled header (members sorted, no
+   spacing), the signature covers the received header and payload segments *)
+Theorem default_verifier_header_exact_partial : forall ph rs sm k tok h payload,
+  parse_jws ph rs sm Fixed (VDefault k) None tok = Accept h payload ->
+  b64enc (h_canon h) = nth 0 (split_dot tok) [] -> h_b64 h <> JB false ->
+  exists p sg, b64dec (nth 2 (split_dot tok) []) = Some sg /\
+    sm sg = SBy (pk_id k) p (nth 0 (split_dot tok) [] ++ dot :: nth 1 (split_dot tok) []).
+Proof. exact default_received_when_canonical. Qed.
+Print Assumptions default_verifier_header_exact_partial.
 
 (* HISTORICAL REFUTATIONS — the code as found (before the three fix: commits); witnesses in corpus/C08. *)
 (* DESIGN s11 #6: a payload segment altered within its unused trailing bits ("QQ" -> "QR") or by a line break was
